@@ -80,6 +80,17 @@ CHECKS = {
    design_ref='DESIGN.md 3.5, 6 (C17)',
    note='Receivers are connected in the runner process (weak=False).',
    technique='TLA+ design model + TLC + trace validation of recorded signal/statement streams'),
+ 'C12': dict(
+   engine='runs', category='model_checking',
+   text=('Perturb.tla (on top of Sig/Optimizer) builds every valid evolution in scope, applies every single perturbation '
+         '(drop, duplicate, swap, retarget, rename, remove initial, change attribute, flip null) and decides with the '
+         'transcribed pipeline (changed-models filter, two optimisation passes, Sim, default-aware DiffEmpty) whether the '
+         'command must reject (sim-fails / residual) or may execute (reaches). A stratified sample is written into a synthetic '
+         'project and run through `evolve --execute --noinput`; verdict: rejected => no write statement and identical '
+         'schema, rows and bookkeeping; executed => a following Evolver reports nothing required and an empty diff.'),
+   design_ref='DESIGN.md 6 (C12)',
+   note='The decision of the model and of the command agreed on every replayed case (binding); error type of rejections is checked too.',
+   technique='TLA+ transcription + TLC enumeration of perturbed evolutions + replay through the management command'),
 }
 
 NOT_YET = {
@@ -123,7 +134,7 @@ def main():
              'kind_free_text': 'TLC-enumerated dependency graphs replayed into DependencyGraph'},
             {'name': 'mutseq', 'path': 'harness/engines/mutseq.py', 'serves_properties': ['C03', 'C18'],
              'kind_free_text': 'TLC-enumerated mutation sequences replayed through three real pipelines on SQLite'},
-            {'name': 'runs', 'path': 'harness/engines/runs.py', 'serves_properties': ['C04', 'C07', 'C08', 'C17'],
+            {'name': 'runs', 'path': 'harness/engines/runs.py', 'serves_properties': ['C04', 'C07', 'C08', 'C12', 'C17'],
              'kind_free_text': 'TLC-generated run histories replayed on a synthetic Django project (one interpreter per run); recorded traces validated by EvolverTrace.tla'},
         ],
         'checks': checks,
